@@ -1187,38 +1187,22 @@ def t3_key(exc, origin):
 
 
 def configs_from_repo(repo):
-    """The five bundled pairings, read from pvl_validate.dialects (AST); plus
-    the constructor defaults of the parser classes."""
+    """The five bundled pairings: the rows of pvl_validate.dialects as the module builds them (abstract evaluation of
+    the module's top level, vsa.ctor.module_value)."""
+    from . import ctor
     cfgs = []
     seen = set()
-    mod = repo.modules.get("pvl_validate")
-    if mod is not None and "dialects" in mod.assigns:
-        inst = {}   # _pvl_g -> class name
-        for name, val in mod.assigns.items():
-            if isinstance(val, ast.Call) and isinstance(val.func, ast.Name) and repo.has_cls(val.func.id):
-                inst[name] = val.func.id
-                for kw in val.keywords:
-                    if kw.arg == "grammar" and isinstance(kw.value, ast.Name):
-                        inst[name + "::grammar"] = kw.value.id
-        d = mod.assigns["dialects"]
-        from .core import dict_entries
-        rows = dict_entries(d) or []
-        for rname, row in rows:
-            if dict_entries(row) is None:
+    d = ctor.module_value(repo, "pvl_validate", "dialects") if "pvl_validate" in repo.modules else None
+    if isinstance(d, ctor.DictV):
+        for rname, row in d.items:
+            if not isinstance(row, ctor.DictV):
                 continue
-            parser = decoder = grammar = None
-            for karg, kvalue in dict_entries(row):
-                if karg == "parser" and isinstance(kvalue, ast.Call):
-                    parser = norm(kvalue.func)
-                elif karg == "grammar" and isinstance(kvalue, ast.Name):
-                    grammar = inst.get(kvalue.id)
-                elif karg == "decoder" and isinstance(kvalue, ast.Name):
-                    decoder = inst.get(kvalue.id)
-            if parser and decoder and grammar and repo.has_cls(parser):
-                key = (parser, decoder, grammar)
+            p_, g_, dd = row.get("parser"), row.get("grammar"), row.get("decoder")
+            if isinstance(p_, ctor.Inst) and isinstance(g_, ctor.Inst) and isinstance(dd, ctor.Inst) and repo.has_cls(p_.cls):
+                key = (p_.cls, dd.cls, g_.cls)
                 if key not in seen:
                     seen.add(key)
-                    cfgs.append(Config(rname, parser, decoder, grammar))
+                    cfgs.append(Config(rname, p_.cls, dd.cls, g_.cls))
     if len(cfgs) < 5:
         raise AnalysisError(f"could not read five dialect pairings from pvl_validate.dialects (got {len(cfgs)})")
     return cfgs
